@@ -435,6 +435,11 @@ def check_polynomial_algebra(r, repo, tier, rule="R16.6"):
                 # in the reversed convention the shorter polynomial is aligned at the highest power
                 want = denote(P, rev) + denote(Q, rev)
                 ob(f"add (len {n} + len {m}, reverse={rev})", isinstance(got, list) and denote(got, rev) == want, "the coefficient list does not denote P(x) + Q(x)")
+            # the empty list is the zero polynomial (divmod returns it as remainder of an exact division, as quotient of a lower degree)
+            for A_, B_, tag in ((P, [], "+ []"), ([], P, "[] +")):
+                got = call("add", list(A_), list(B_), reverse=rev)
+                ob(f"add (len {n} {tag}, reverse={rev})", isinstance(got, list) and denote(got, rev) == denote(P, rev),
+                   f"adding the empty (zero) polynomial returns {got!r}, not P: in the reversed convention `P[:-0]` is the empty list")
             for k in (0, 1, 2, 3):
                 got = call("derivative", P, n=k, reverse=rev)
                 cs = list(reversed(P)) if rev else list(P)
